@@ -2220,31 +2220,38 @@ class ResetIndex(Elemwise):
     def _divisions(self):
         return (None,) * (self.frame.npartitions + 1)
 
+    def _predicate_on_frame(self, predicate):
+        # Express a predicate on self in terms of self.frame: every term reading
+        # from self has to be a column selection, the column holding the former
+        # index is replaced with the actual index
+        if self.operand("drop"):
+            return predicate.substitute(self, self.frame)
+        index_column = self._meta.columns[0]
+        for e in list(predicate.walk()):
+            if all(d._name != self._name for d in e.dependencies()):
+                continue
+            if not isinstance(e, Projection):
+                return None
+            columns = e.operand("columns")
+            if isinstance(columns, (list, pd.Index)):
+                if self.frame.ndim == 1 or index_column in e.columns:
+                    return None
+                new = self.frame[columns]
+            elif columns == index_column:
+                # a Series, the predicate may use methods an Index doesn't have
+                new = ToSeriesIndex(Index(self.frame))
+            else:
+                new = self.frame if self.frame.ndim == 1 else self.frame[columns]
+            predicate = predicate.substitute(e, new)
+        return predicate
+
     def _simplify_up(self, parent, dependents):
         if isinstance(parent, Filter) and self._filter_passthrough_available(
             parent, dependents
         ):
-            parents = [
-                p().columns
-                for p in dependents[self._name]
-                if p() is not None and not isinstance(p(), Filter)
-            ]
-            predicate = None
-            if not set(flatten(parents, list)).issubset(set(self.frame.columns)):
-                # one of the filters is the Index
-                name = self.operand("name")
-                if name is no_default and self.frame._meta.index.name is None:
-                    name = "index"
-                elif self.frame._meta.index.name is not None:
-                    name = self.frame._meta.index.name
-                # replace the projection of the former index with the actual index
-                subs = Projection(self, name)
-                predicate = parent.predicate.substitute(subs, Index(self.frame))
-            elif self.frame.ndim == 1 and not self.operand("drop"):
-                name = self.frame._meta.name
-                # Avoid Projection since we are already a Series
-                subs = Projection(self, name)
-                predicate = parent.predicate.substitute(subs, self.frame)
+            predicate = self._predicate_on_frame(parent.predicate)
+            if predicate is None:
+                return
             return self._filter_simplification(parent, predicate)
 
         if isinstance(parent, Projection):
